@@ -612,12 +612,27 @@ def check_mutated(j, a, before, others_before, hps, table, where, problems, tags
     hp = hps[names.index(mut)]
     own, new = before["hp"][mut], getattr(a, mut)
     exp = expected_values(hp, own)
+    tolerant = False
     for f in (hp["shrink"], hp["grow"]):
         if not exactly_representable(Q(own) * Fraction(f)):
-            raise InfraError(f"inexact product generated: {own}*{f} ({where})")
+            # every value the harness generates keeps its products exact.  If the history has been correct so
+            # far this is the generator's fault; if the implementation already deviated (a problem is recorded)
+            # the non-dyadic number is ITS doing: go on with a toleranced comparison, finish with the violations
+            if not problems:
+                raise InfraError(f"inexact product generated: {own}*{f} ({where})")
+            tolerant = True
     lo, hi = Fraction(hp["lo"]), Fraction(hp["hi"])
     rlo, rhi = cast(hp["dt"], lo), cast(hp["dt"], hi)
-    if Q(new) not in exp:
+    if tolerant:
+        fexp = set()
+        for f in (hp["shrink"], hp["grow"]):
+            x = min(max(float(num_of(own)) * float(Fraction(f)), float(lo)), float(hi))
+            fexp.add(float(int(x)) if hp["dt"] == "i" else x)
+        if not any(abs(float(num_of(new)) - e) <= 1e-12 * max(1.0, abs(e)) for e in fexp):
+            problems.append(f"{where}: agent {j} (index {a.index}) {mut}: {own!r} -> {new!r}, but own value × "
+                            f"shrink|grow clipped to [{lo}, {hi}] and cast to {hp['dt']} is one of {sorted(fexp)} "
+                            f"(float comparison: the value was already off the generated dyadic grid) [wrong base value]")
+    elif Q(new) not in exp:
         foreign = [k for k, ob in others_before
                    if Q(new) in expected_values(hp, ob["hp"][mut]) and ob["hp"][mut] != own]
         hint = f"; it IS agent {foreign[0]}'s value × factor" if foreign else ""
@@ -657,8 +672,20 @@ def check_mutated(j, a, before, others_before, hps, table, where, problems, tags
     tags.append(f"hp-{mut}")
 
 
-def run_case(case: dict):
+def run_case(case: dict, mut=None):
     """-> (impl lines, model op lines, problems, tags, trace)"""
+    g = case_steps(case, mut)
+    try:
+        while True:
+            next(g)
+    except StopIteration as e:
+        return e.value
+
+
+def case_steps(case: dict, mut=None):
+    """generator form of a population history: yields after the construction and after every op, returns
+    (impl lines, model op lines, problems, tags, trace).  `mut` = the Mutations object to use (a session
+    shares ONE object between several populations of different algorithms); None = a fresh one"""
     from agilerl.hpo.mutation import Mutations
     from agilerl.hpo.tournament import TournamentSelection
     algo, hps = case["algo"], case["hps"]
@@ -666,7 +693,8 @@ def run_case(case: dict):
     names = [h["name"] for h in hps]
     impl, model, problems, tags, trace = [], [], [], [f"algo-{algo}", f"via-{case.get('via', 'create_population')}"], []
     pop, cfg = build_population(case)
-    mut = Mutations(0, 0, 0, 0, 0, 1, rand_seed=case["seed"] % (2 ** 31))
+    if mut is None:
+        mut = Mutations(0, 0, 0, 0, 0, 1, rand_seed=case["seed"] % (2 ** 31))
     # registry descriptor, read from the live object
     reg = pop[0].registry
     cfg_names = list(reg.hp_config.names())
@@ -702,6 +730,7 @@ def run_case(case: dict):
     def shared_cfg(a) -> bool:
         return sum(1 for b in pop if b.registry.hp_config is a.registry.hp_config) > 1
 
+    yield
     for t, op in enumerate(case["ops"]):
         s = (case["seed"] * 7919 + 104729 * (t + 1)) % (2 ** 31)
         seed_all(s)
@@ -874,6 +903,7 @@ def run_case(case: dict):
         check_invariant(pop, table, where, problems)
         model.append("hpmut dump")
         impl.append(dump_line(pop, all_names, opt_attrs))
+        yield
     return impl, model, problems, tags, trace
 
 
@@ -890,6 +920,133 @@ def one_case(chk: Check, case: dict):
     # de-duplicate oracle messages, keep order
     problems = list(dict.fromkeys(problems))
     return diff, problems, tags, impl, model_out, trace
+
+
+# ----------------------------------------------------------------------------- sessions: ONE Mutations object
+def gen_session(rng: random.Random, tier: str) -> dict:
+    """several populations of DIFFERENT algorithms mutated, interleaved, by one and the same Mutations object
+    (as a user does who keeps one `Mutations` for several experiments); every part is an ordinary
+    population history with its learning rates among the configured hyper-parameters"""
+    groups = [["DQN", "CQN", "PPO", "NeuralUCB", "NeuralTS", "IPPO"], ["DDPG", "TD3", "MADDPG", "MATD3"]]
+    rng.shuffle(groups)
+    algos = [rng.choice(groups[0]), rng.choice(groups[1])]
+    if rng.random() < 0.5:
+        algos.append(rng.choice(groups[0] + groups[1]))
+    parts = []
+    for a in algos:
+        c = gen_case(rng, "quick", algo=a)
+        lrs = sorted(set(ALGOS[a]["opts"].values()))
+        have = [h["name"] for h in c["hps"]]
+        c["hps"] = [h for h in c["hps"] if h["name"] in lrs] + \
+                   [gen_hp(rng, n, False, ALGOS[a]["ma"]) for n in lrs if n not in have]
+        c["pop"] = rng.choice([1, 2])
+        c["ops"] = [o for o in c["ops"] if o[0] in ("mut", "mutall", "learn", "clone", "ckpt")][:5]
+        if not any(o[0] in ("mut", "mutall") for o in c["ops"]):
+            c["ops"] = [["mut", 0]] + c["ops"]
+        c["ops"] = c["ops"] + [["mutall"]]
+        parts.append(c)
+    order = [i for i, c in enumerate(parts) for _ in c["ops"]]
+    rng.shuffle(order)
+    return {"suite": "session", "parts": parts, "order": order, "seed": rng.randrange(1 << 30)}
+
+
+def run_session(sess: dict) -> list:
+    """-> per part: (impl, model ops, problems, tags, trace) or an exception text"""
+    from agilerl.hpo.mutation import Mutations
+    mut = Mutations(0, 0, 0, 0, 0, 1, rand_seed=sess["seed"] % (2 ** 31))
+    gens = [case_steps(p, mut) for p in sess["parts"]]
+    results: list = [None] * len(gens)
+
+    def advance(i):
+        if results[i] is not None:
+            return
+        try:
+            next(gens[i])
+        except StopIteration as e:
+            results[i] = e.value
+        except InfraError:
+            raise
+        except Exception as e:                       # the implementation raised on a legal sequence
+            results[i] = f"implementation raised {type(e).__name__}: {e}"
+    for i in range(len(gens)):
+        advance(i)                                   # construction of every population first
+    for i in sess["order"]:
+        if 0 <= i < len(gens):
+            advance(i)
+    for i in range(len(gens)):
+        for _ in range(len(sess["parts"][i]["ops"]) + 2):
+            advance(i)
+    return results
+
+
+def one_session(chk: Check, sess: dict):
+    """-> list per part of (diff, problems, tags, impl, model_out, trace)"""
+    out = []
+    for r in run_session(sess):
+        if isinstance(r, str) or r is None:
+            out.append((None, [r or "history did not finish"], [], [], [], []))
+            continue
+        impl, model_ops, problems, tags, trace = r
+        model_out = drive(chk, ["reset"] + model_ops)[1:]
+        diff = next((i for i, (a, b) in enumerate(zip(impl, model_out)) if a != b), None)
+        out.append((diff, list(dict.fromkeys(problems)), tags, impl, model_out, trace))
+    return out
+
+
+def session_fails(chk: Check, sess: dict) -> bool:
+    return any(d is not None or p for d, p, *_ in one_session(chk, sess))
+
+
+def report_session(chk: Check, sess: dict, res: list) -> None:
+    """a failing part that also fails on its own is an ordinary population violation; otherwise the shared
+    Mutations object matters: shrink to two parts, then their ops"""
+    bad = next(i for i, (d, p, *_) in enumerate(res) if d is not None or p)
+    d, p, _, impl, model_out, _ = one_case(chk, sess["parts"][bad])
+    if d is not None or p:
+        report(chk, sess["parts"][bad], d, p, impl, model_out, shrink=len(chk.violations) < 4)
+        return
+    small = sess
+    for other in range(len(sess["parts"])):
+        if other == bad:
+            continue
+        keep = sorted((other, bad))
+        cand = {**sess, "parts": [sess["parts"][k] for k in keep],
+                "order": [keep.index(i) for i in sess["order"] if i in keep]}
+        if session_fails(chk, cand):
+            small = cand
+            break
+    if len(chk.violations) < 4:
+        for k in range(len(small["parts"])):
+            def fails(sub, k=k):
+                parts = [dict(c) for c in small["parts"]]
+                parts[k]["ops"] = sub
+                order = [i for i, c in enumerate(parts) for _ in c["ops"]]   # part after part
+                return session_fails(chk, {**small, "parts": parts, "order": order})
+            if session_fails(chk, {**small, "order": [i for i, c in enumerate(small["parts"]) for _ in c["ops"]]}):
+                small = {**small, "order": [i for i, c in enumerate(small["parts"]) for _ in c["ops"]]}
+                ops = ddmin(small["parts"][k]["ops"], fails) if len(small["parts"][k]["ops"]) > 1 else small["parts"][k]["ops"]
+                parts = [dict(c) for c in small["parts"]]
+                parts[k]["ops"] = ops
+                cand = {**small, "parts": parts, "order": [i for i, c in enumerate(parts) for _ in c["ops"]]}
+                if session_fails(chk, cand):
+                    small = cand
+    res2 = one_session(chk, small)
+    if not any(d is not None or p for d, p, *_ in res2):
+        small, res2 = sess, res
+    probs = [f"[part {i} {small['parts'][i]['algo']}] {m}" for i, (d, p, *_) in enumerate(res2) for m in p]
+    replay = {"suite": "session", **small,
+              "results": [{"algo": small["parts"][i]["algo"], "first_diff": d, "oracle_problems": p, "trace": tr,
+                           "impl": im, "model": mo} for i, (d, p, _, im, mo, tr) in enumerate(res2)],
+              "how": "ONE Mutations(0,0,0,0,0,1) object performs the ops of all parts, interleaved in `order` "
+                     "(part index per op); the failing part passes when it is run with a Mutations object of its own",
+              "theorems": chk.gate["theorems"]}
+    if probs:
+        chk.violation(probs[0] + " — only when the Mutations object has mutated another algorithm's agent before",
+                      replay)
+    else:
+        i, d = next((i, d) for i, (d, *_) in enumerate(res2) if d is not None)
+        chk.violation(f"session part {i}: implementation and HpMut model disagree at line {d}; oracle holds", replay,
+                      no_input=True)
 
 
 def shrink_case(chk: Check, case: dict, by_oracle: bool) -> dict:
@@ -1032,7 +1189,8 @@ def run(chk: Check) -> None:
                 "another mutation kind | clone | tournament selection | save_checkpoint -> load_checkpoint into an "
                 "un-mutated twin | save_checkpoint -> Algo.load), half of the histories with such a continuation "
                 "immediately after a mutation; start values also held as int literals (float hps at 0/1), numpy "
-                "scalars, 0-dim tensors; plus long power-of-two drift runs; "
+                "scalars, 0-dim tensors; plus long power-of-two drift runs; suite session: 2-3 populations of "
+                "different algorithms whose histories are interleaved and performed by ONE shared Mutations object; "
                 "distinct = distinct (algo, config, ops); "
                 "non-trivial = some mutation hit a bound, truncated an int, hit a learning rate used by >= 2 "
                 "optimizers, mutated the learning rate of an optimizer that already holds state, or mutated an "
@@ -1129,6 +1287,28 @@ def run(chk: Check) -> None:
         ndiff += diff is not None
         report(chk, case, diff, problems, impl, model_out, shrink=len(chk.violations) < 4)
     chk.suite("population", len(cases), ndiff)
+    # ---- suite 3: one Mutations object across populations of different algorithms
+    sessions = []
+    for f in sorted((ROOT / "corpus" / "C06").glob("*.json")):
+        c = json.loads(f.read_text())
+        c = c.get("replay", c)
+        if c.get("suite") == "session":
+            sessions.append(c)
+    for _ in range(8 if quick else 80):
+        sessions.append(gen_session(rng, chk.tier))
+    nsd = 0
+    for sess in sessions:
+        res = one_session(chk, sess)
+        alltags = [t for _, _, tg, *_ in res for t in tg]
+        chk.case(["session", [(c["algo"], c["hps"], c["ops"]) for c in sess["parts"]], sess["order"]],
+                 nontrivial=len({c["algo"] for c in sess["parts"]}) > 1,
+                 sample={"suite": "session", "algos": [c["algo"] for c in sess["parts"]], "order": sess["order"]},
+                 tags=["session"] + [f"session-{'+'.join(c['algo'] for c in sess['parts'])}"] +
+                      [t for t in alltags if t.startswith("op-") or t.startswith("lr-of")])
+        if any(d is not None or p for d, p, *_ in res):
+            nsd += any(d is not None for d, *_ in res)
+            report_session(chk, sess, res)
+    chk.suite("session", len(sessions), nsd)
     probe_rejects_unknown_hp(chk)
     probe_lr_identity(chk)
     if chk.tier == "thorough":
@@ -1316,6 +1496,22 @@ def replay(chk: Check, path: str) -> int:
         return 0
     if c.get("suite") == "probe":
         print("probe replays are re-run by the normal check")
+        return 0
+    if c.get("suite") == "session":
+        res = one_session(chk, c)
+        own = [one_case(chk, p)[:2] for p in c["parts"]]
+        print(json.dumps({"algos": [p["algo"] for p in c["parts"]], "order": c["order"],
+                          "parts": [{"algo": c["parts"][i]["algo"], "hps": c["parts"][i]["hps"],
+                                     "ops": c["parts"][i]["ops"], "diff_at": d, "oracle_problems": p, "draws": tr,
+                                     "impl": im, "model": mo,
+                                     "fails_with_a_mutations_object_of_its_own": bool(own[i][0] is not None or own[i][1])}
+                                    for i, (d, p, _, im, mo, tr) in enumerate(res)]}, indent=1))
+        if any(p for _, p, *_ in res):
+            print(f"VIOLATION property=C06 replay={path}")
+            return 1
+        if any(d is not None for d, *_ in res):
+            print(f"VIOLATION property=C06 replay={path} no-failing-input-found")
+            return 1
         return 0
     diff, problems, _, impl, model_out, trace = one_case(chk, c)
     # which recorded variant of the model does the implementation follow?
